@@ -5,7 +5,7 @@ from vmon import attach, gen, refmetrics, refmodel, vutil
 
 NAN = float("nan")
 PROB = set(["qq-q", "marginal", "invreliability", "spreadskill", "murphy", "economicvalue", "bsdecomp", "igncontrib"])
-FIXED_F = {"meteo": 1, "against": 2, "impact": 2, "rank": 2}
+FIXED_F = {"meteo": 1, "against": 2, "impact": 2, "rank": 2, "mapimpact": 2}
 
 
 def _c16():
@@ -593,6 +593,65 @@ def d_map(ctx, rng, ds, paths, kind):
     c.done(ctx, "map", argv, kind, F, distinct)
 
 
+def d_mapimpact(ctx, rng, ds, paths, kind):
+    """-type mapimpact: a red marker where input 0 is worse (higher MAE), a blue one where input 1 is, at the station's own
+    coordinates, with area proportional to the difference; stations without a defined difference are not drawn"""
+    import copy
+    import tempfile
+    import numpy as np
+    c = _c16()
+    ds = copy.deepcopy(ds)
+    times, leads, locs = refmodel.common_dims(ds)
+    if len(locs) >= 3:
+        # one station (not the last one) never reports: its difference is undefined
+        dead = gen.fnum(sorted(l[0] for l in locs)[rng.randrange(len(locs) - 1)])
+        for inp in ds["inputs"]:
+            for k_, c_ in inp["cells"].items():
+                if k_.split("|")[2] == dead:
+                    c_["obs"] = None
+    d2 = tempfile.mkdtemp(prefix="mapimpact", dir=ctx.workdir)
+    paths, _ = gen.materialize(ds, d2, None)
+    argv = ["-m", "mae", "-type", "mapimpact"]
+    fig, case = c.run(ctx, paths, argv, ds)
+    if fig is None:
+        return
+    sl0 = refmodel.slices(ds, 0, [("obs",), ("fcst",)], "location")
+    sl1 = refmodel.slices(ds, 1, [("obs",), ("fcst",)], "location")
+    want = {"r": [], "b": []}
+    for loc, (lab, cs0), (lab1, cs1) in zip(locs, sl0, sl1):
+        m0 = refmetrics.deterministic("mae", [x[0] for x in cs0], [x[1] for x in cs0])
+        m1 = refmetrics.deterministic("mae", [x[0] for x in cs1], [x[1] for x in cs1])
+        dlt = m0 - m1
+        if dlt == dlt and dlt != 0:
+            want["r" if dlt > 0 else "b"].append((loc[2], loc[1], abs(dlt)))
+    ax = [a for a in fig.axes if a.get_label() != "<colorbar>"][0]
+    got = {"r": [], "b": []}
+    import matplotlib.colors as mc
+    for col in ax.collections:
+        fc = col.get_facecolor()
+        if len(fc) == 0:
+            continue
+        key = "r" if mc.to_rgba("r")[:3] == tuple(fc[0][:3]) else "b" if mc.to_rgba("b")[:3] == tuple(fc[0][:3]) else None
+        if key is None:
+            continue
+        off = np.asarray(col.get_offsets(), float)
+        sizes = np.asarray(col.get_sizes(), float)
+        for i in range(len(off)):
+            got[key].append((float(off[i, 0]), float(off[i, 1]), float(sizes[i] if len(sizes) > 1 else sizes[0])))
+    allw = [w[2] for k_ in want for w in want[k_]]
+    allg = [g[2] for k_ in got for g in got[k_]]
+    scale = (max(allg) / max(allw)) if allw and allg and max(allw) > 0 else 1.0
+    for key in ("r", "b"):
+        ctx.count("series_compared")
+        ctx.count("points_compared", len(want[key]))
+        g_ = sorted(got[key])
+        w_ = sorted((x, y, a * scale) for x, y, a in want[key])
+        if len(g_) != len(w_) or any(not all(vutil.num_equal(p_, q_, 1e-5, 1e-6) for p_, q_ in zip(a, b)) for a, b in zip(g_, w_)):
+            ctx.violation("mapimpact|markers", "%s markers (lon, lat, area) drawn %s; the per-station MAE differences give %s"
+                          % ("red" if key == "r" else "blue", g_[:5], w_[:5]), case)
+    c.done(ctx, "mapimpact", argv, kind, 2, len(set(allg)))
+
+
 def d_rank(ctx, rng, ds, paths, kind):
     c = _c16()
     axis = rng.choice(["leadtime", "time", "location"])
@@ -752,7 +811,7 @@ def d_fss(ctx, rng, ds, paths, kind):
 DIAGRAMS = {"marginal": d_marginal, "invreliability": d_invreliability, "droc": d_droc, "droc0": d_droc0, "spreadskill": d_spreadskill,
             "murphy": d_murphy, "economicvalue": d_economicvalue, "bsdecomp": d_bsdecomp, "igncontrib": d_igncontrib,
             "autocorr": d_autocorr, "autocov": d_autocov, "timeseries": d_timeseries, "meteo": d_meteo, "against": d_against,
-            "change": d_change, "map": d_map, "rank": d_rank, "impact": d_impact, "fss": d_fss}
+            "change": d_change, "map": d_map, "mapimpact": d_mapimpact, "rank": d_rank, "impact": d_impact, "fss": d_fss}
 
 
 def _agg_pairs(ds, k, axis, agg="mean"):
